@@ -206,6 +206,10 @@ func (g *G) parseBases(tier string) [][2]string {
 	}
 	add([]byte(richCDX), "rich-cdx")
 	add([]byte(richSPDX), "rich-spdx")
+	// documents that carry their declaration and nothing else
+	add([]byte(`{"spdxVersion":"SPDX-2.3"}`), "bare-spdx")
+	add([]byte(`{"bomFormat":"CycloneDX","specVersion":"1.5"}`), "bare-cdx")
+	add([]byte(`{"spdxVersion":"SPDX-2.3","SPDXID":"SPDXRef-DOCUMENT","documentNamespace":null,"packages":[{"SPDXID":"SPDXRef-p","name":"p"}]}`), "spdx-null-namespace")
 	if tier == "thorough" {
 		repo := os.Getenv("VERIF_REPO")
 		if repo == "" {
@@ -353,7 +357,7 @@ func parseGen(g *G, tier string) []M {
 			var sb []byte
 			switch g.Int(7) {
 			case 0:
-				sb = []byte(g.Pick([]string{"auto", "node", "auto", "Auto", "node ", ""}))
+				sb = []byte(g.Pick([]string{"auto", "node", "auto", "Auto", "node ", "", "Node", "NODE", "AUTO", "nOde", "ａｕｔｏ"}))
 			case 1:
 				sb = []byte(g.Pick([]string{"pkg:npm/@scope/name@1.0", "a/b:c d", "..", "-", "ünï", "日本", "a\x00b", "x y/z:w", "C47", "a--b", "\xff\xfe"}))
 			default:
@@ -403,7 +407,18 @@ func layoutsVerdict(b []byte) any {
 	if d0 == nil {
 		return M{"class": class0}
 	}
-	ref := CanonDoc(Normalize(DocJ(d0)))
+	// an SPDX document without a namespace is given a random one (uuid.NewString): the graph is what
+	// the property compares, so the random part of the document identifier is masked
+	canon := func(d *sbom.Document) any {
+		c := CanonDoc(Normalize(DocJ(d)))
+		if m, ok := c.(M); ok {
+			if meta, ok := m["meta"].(M); ok {
+				meta["id"] = uuidRe.ReplaceAllString(asStr(meta["id"]), "<uuid>")
+			}
+		}
+		return c
+	}
+	ref := canon(d0)
 	diffs := []any{}
 	cmp := func(name string, bb []byte, f formats.Format) {
 		class, d := runParse(bb, f)
@@ -411,7 +426,7 @@ func layoutsVerdict(b []byte) any {
 			diffs = append(diffs, name+": "+class)
 			return
 		}
-		if !Equal(CanonDoc(Normalize(DocJ(d))), ref) {
+		if !Equal(canon(d), ref) {
 			diffs = append(diffs, name+": different document")
 		}
 	}
@@ -648,6 +663,21 @@ func oracleParse(op M, res any, exec func(M) any) []Finding {
 					out = append(out, Finding{"C05", fmt.Sprintf("NewNodeIdentifier returned %q with the character %q", id, c)})
 					break
 				}
+			}
+			// a usable seed: any non-empty seed that is not one of the two reserved words "auto" / "node"
+			// standing before every usable seed (those are prefixes, exactly as spelled)
+			usable := false
+			for _, sd := range asList(op["seeds"]) {
+				var sb []byte
+				for _, x := range asList(sd) {
+					sb = append(sb, byte(asInt(x)))
+				}
+				if s := string(sb); s != "" && !(s == "auto" || s == "node") {
+					usable = true
+				}
+			}
+			if usable && strings.Contains(id, "<uuid>") {
+				out = append(out, Finding{"C05", fmt.Sprintf("NewNodeIdentifier fell back to a random identifier (%s) although a usable seed was given: not deterministic", id)})
 			}
 			if !strings.Contains(id, "<uuid>") && r["stable"] != true {
 				out = append(out, Finding{"C05", "NewNodeIdentifier is not deterministic for usable seeds"})
